@@ -10,6 +10,7 @@ import Cnl2aspModel.Asp.PrintProg
 import Cnl2aspModel.Asp.Gram
 import Cnl2aspModel.Compiler.Route
 import Cnl2aspModel.Compiler.Signatures
+import Cnl2aspModel.Compiler.SignaturesFn
 import Cnl2aspModel.Compiler.Naming
 import Cnl2aspModel.Compiler.Temporal
 import Cnl2aspModel.Compiler.Surface
@@ -147,7 +148,8 @@ def c13table (j : Json) : Json :=
   Json.mkObj [("table", Json.arr (table.map fun s => Json.mkObj [
     ("name", Json.str s.name), ("keys", sattrsJson s.keys), ("attrs", sattrsJson s.attrs),
     ("flat", Json.num (flatArity s)), ("atom", Json.num (atomArity s)), ("fn", Json.num (fnArity s)),
-    ("printedFn", Json.num (printedFnArity nameEq s))]).toArray)]
+    ("printedFn", Json.num (printedFnArity nameEq s)),
+    ("ownOk", Json.bool (ownOkB s.name (instanceAttrs s)))]).toArray)]
 
 open Naming in
 def c07namer (j : Json) : Json :=
